@@ -279,7 +279,7 @@ UNITS = {
     },
     "multipart": {
         "preludes": ["shims/core.rs", "shims/bytes.rs", "shims/cursor.rs"],
-        "specs": ["contracts/spec/hv.rs", "contracts/spec/crlf.rs", "contracts/spec/multipart.rs"],
+        "specs": ["contracts/spec/hv.rs", "contracts/spec/crlf.rs", "contracts/spec/multipart.rs", "contracts/spec/multipart_thm.rs"],
         "sources": [
             SYMBOL_SRC,
             ("src/ext/string_ext/mod.rs", ["struct:StringExt", "fn:StringExt::truncate_new_line_carriage_return", "fn:StringExt::filter_ascii_control_characters:assume"]),
